@@ -123,7 +123,7 @@ def gen_cases(rng, ctx):
                 # chunked by the client: passed on as the client framed it (the coding name in any case, possibly after another coding)
                 body = gen_chunked(rng, body)
                 declared = -1
-                req_hs.append(("transfer-encoding", rng.choice(["chunked", "Chunked", "CHUNKED", "gzip, chunked", "gzip,Chunked "])))
+                req_hs.append(("transfer-encoding", rng.choice(["chunked", "Chunked", "CHUNKED", "gzip, chunked", "gzip,Chunked"])))
         rng.shuffle(req_hs)
         body_chunks = []
         pos = 0
